@@ -110,10 +110,6 @@ class Oracles:
             return f"{r.type}[{'acc' if s.get('accumulating') else 'nonacc'}]"
         return r.type
 
-    def on_build_error(self, e):
-        if not self.meta.get("invalid"):
-            self.violate("C20", "build-crash:" + type(e).__name__, "build", f"building a valid model raised {e!r}", norm_msg(e))
-
     # ---- attach ------------------------------------------------------------------------------------
     def attach(self):
         run = self.run
@@ -629,12 +625,43 @@ class Oracles:
                 self.violate("C09", "blocking-node-discarded", self.nlabel(nid), f"blocking {nid} has num_item_discarded={self.stat(nid, 'num_item_discarded')}")
 
     # ---- end of run ------------------------------------------------------------------------------------
+    def on_build_error(self, e):
+        inv = self.meta.get("invalid")
+        if inv:
+            self.probe("c20_invalid_rejected_at_construction")
+            self.probe("c20_invalid_rejected:" + inv["kind"])
+            return
+        self.violate("C20", "build-crash:" + type(e).__name__, "build", f"building a valid model raised {e!r}", norm_msg(e))
+
+    def judge_invalid(self):
+        """An invalid configuration must be rejected with an error, not silently simulated."""
+        run, inv = self.run, self.meta["invalid"]
+        if run.crash is not None and run.crash[0] != "livelock":
+            self.probe("c20_invalid_rejected_at_run")
+            self.probe("c20_invalid_rejected:" + inv["kind"])
+            return
+        w = inv["where"]
+        moved = sum(1 for r in run.log if r[0] in ("put", "get") and (r[3] == w or r[6] == w))
+        if moved == 0 and inv["kind"] not in ("edge-capacity", "buffer-mode", "nonblocking-source-zero-iat", "index-out-of-range-in", "index-out-of-range-out"):
+            self.probe("c20_invalid_not_exercised")
+            return
+        self.violate("C20", "invalid-accepted:" + inv["kind"], self.nrec[w].type if w in self.nrec else self.erec[w].type,
+                     f"invalid configuration ({inv['kind']} at {w}) was simulated without an error; {moved} item movement(s) on that component")
+
     def finish(self):
         run = self.run
+        if self.meta.get("invalid"):
+            self.judge_invalid()
+            return
+        if run.crash is not None and self.meta.get("wide") and run.crash[0] == "ValueError" and "Unsupported edge type" in run.crash[1]:
+            self.probe("c20_unsupported_edge_type_rejected")
+            return
         if run.crash is not None:
             kind, msg, where = run.crash
             if kind == "livelock":
                 self.violate("C20", "livelock", self.meta.get("template", "?"), f"zero-time livelock: {msg}")
+            elif kind == "clock-went-back":
+                self.violate("C19", "clock-went-back", self.meta.get("template", "?"), f"simulated time decreased: {msg}")
             elif not self.meta.get("invalid"):
                 self.violate("C20", f"crash:{kind}", where or "?", f"{kind}: {msg} escaped env.step() at {where}", norm_msg(msg))
             return
